@@ -14,14 +14,15 @@ def prop(pid, title, level, units, clauses, explanation, statement_clauses=None,
 
 
 prop("C16", "rustfmt never terminates abnormally", "other",
-     ["U01", "U02", "U03", "U06", {"unit": "U04", "only": r"does not panic|FormatReportFormatter"}, {"unit": "U07", "only": r"does not panic"}, {"unit": "U09", "only": r"does not panic"}, "U28", {"unit": "U18", "only": r"does not panic"}],
+     ["U01", "U02", "U03", "U06", {"unit": "U04", "only": r"does not panic|FormatReportFormatter"}, {"unit": "U07", "only": r"does not panic"}, {"unit": "U09", "only": r"does not panic"}, "U28", {"unit": "U18", "only": r"does not panic"}, {"unit": "U30", "only": r"^format_snippet|^format_code_block|^rewrite_macro"}],
      [{"clause": "no arithmetic panic (overflow) in Range::{new,is_empty,contains,intersects,adjacent_to,merge} for any usize", "status": "proved", "by": "U01 (Verus)"},
       {"clause": "no arithmetic panic in FormatLines::{new_line,char,push_err,should_report_error} and the fold (line_len -= 1 never underflows: invariant last_was_space => line_len >= 1) for texts of any length, tab_spaces >= 1", "status": "proved", "by": "U03 (Verus)"},
       {"clause": "no overflow / division by zero in Indent and Shape arithmetic under wf (fields <= 2^32, tab_spaces >= 1); every *_opt turns 'does not fit' into None (is_none <=> delta > width)", "status": "proved", "by": "U06 (Verus; Kani for mut-self fns and the Option::map payloads)"},
       {"clause": "no panic in normalize_ranges / FileLines queries / FromStr, format_lines, Indent::to_string (80-column buffer seam), push_vertical_spaces on the enumerated domains (overflow checks on, panics caught per case)", "status": "bounded", "by": "U02, U04, U07, U09 (native)"},
       {"clause": "printing the diagnostics (FormatReportFormatter over annotate-snippets) never panics, for every report format_lines can produce on the domain (tabs, multi-byte characters)", "status": "bounded", "by": "U04 (native; whole file format_report_formatter.rs with the real annotate-snippets)"},
       {"clause": "a panic inside the Rust parser (incl. the fatal lexer errors raised while the parser is created) is contained and reported as an ordinary failure of the input", "status": "bounded", "by": "U28 (complete over {ok, diagnostics, panic} x {ok, Err, panic} x error flags)"},
-      {"clause": "remaining catch_unwind containment (macro formatting, format_snippet around doc-comment code blocks and macro formatting; stack depth; ~900 unchecked arithmetic sites inside rewriters", "status": "not_decided", "by": "-"}],
+      {"clause": "a panic inside the formatting of one macro (rewrite_macro) or of a code snippet (format_snippet / format_code_block: doc-comment code blocks, macro bodies) is contained: the macro is reported as failed and its source kept / None is returned, nothing unwinds", "status": "bounded", "by": "U30 part C (real functions on shims whose inner call panics, errs or succeeds: complete over the outcome table)"},
+      {"clause": "stack depth; ~900 unchecked arithmetic sites inside rewriters", "status": "not_decided", "by": "-"}],
      "Absence of arithmetic panics is discharged by Verus as machine-integer overflow obligations on the verbatim text of the listed functions (all inputs). "
      "Bounded units run the natively compiled real text with overflow checks and catch every panic as a failed obligation. The bulk of C16 (parser containment, stack depth, rewriters) is not decided by this technique.",
      statement_clauses={"U01": "it does not panic (C16) — arithmetic overflow is a panic in the test-profile binary", "U02": "it does not panic (C16)", "U03": "it does not panic", "U06": "it does not panic", "U04": "it does not panic", "U07": "it does not panic", "U09": "it does not panic", "U28": "a panic inside the Rust parser ... is contained and reported as an ordinary failure of that input", "U18": "it does not panic"},
@@ -72,12 +73,14 @@ prop("C20", "The --backup write protocol never loses the original", "fault_enume
 
 
 prop("C15", "Output is a function of source and configuration only", "other",
-     ["U05", {"unit": "U23", "only": r"^format_input_inner|^Session::format"}, {"unit": "U04", "only": r"does not depend on the order"}],
+     ["U05", {"unit": "U23", "only": r"^format_input_inner|^Session::format"}, {"unit": "U04", "only": r"does not depend on the order"}, {"unit": "U30", "only": r"^format:|^handle_formatted_file"}],
      [{"clause": "the session summary (ReportedErrors::add) is a field-wise OR: commutative, associative, idempotent, so the final flags do not depend on the order of the files", "status": "proved", "by": "U05 (Kani, complete)"},
       {"clause": "the exit status of a multi-file invocation is the maximum of the single-file statuses (file and stdin entry points)", "status": "proved", "by": "U05 (Kani, complete)"},
       {"clause": "override_config runs the closure under the local configuration and restores the session configuration afterwards (for any closure that does not itself assign `config`)", "status": "proved", "by": "U05 (Kani, complete)"},
       {"clause": "every root of one session is judged by its own configuration (required_version), whatever was formatted before it", "status": "bounded", "by": "U23 (session histories of three roots)"},
       {"clause": "the printed diagnostics do not depend on the order in which files were reported nor on a per-process hash seed", "status": "bounded", "by": "U04 (same report content appended in 20 different orders)"},
+      {"clause": "several files on one command line: each is formatted exactly once per occurrence, in order, under the configuration load_config returns for ITS OWN directory (or the --config-path one), whatever came before it; the exit status is the maximum of the single-file statuses; the session configuration is the global one again after the loop", "status": "bounded", "by": "U30 part A (the real fn format of bin/main.rs on a real scratch tree with recording load_config / format_and_emit_report; all sequences of <= 3/4 files x 8 config layouts)"},
+      {"clause": "every formatted file is handed to the emitter exactly once, also when the same name was handled before in the session; has_diff goes to the report of this call; emitter errors carry the file name", "status": "bounded", "by": "U30 part B (real impl FormatHandler for Session; histories of <= 3/4 calls)"},
       {"clause": "fresh ParseSess per input, environment / working-directory independence, stdin-vs-path equality of the bytes, per-file reports equal to single-file runs", "status": "not_decided", "by": "-"}],
      "Only the state that survives between inputs of one session is within reach of contracts: the error summary, the exit-code formula and the config swap. They are loop-free functions over booleans and "
      "two words, so a Kani harness over fully symbolic inputs is a complete proof. Whether the formatter proper is deterministic is not decided by this technique.",
@@ -85,13 +88,14 @@ prop("C15", "Output is a function of source and configuration only", "other",
      assumptions=["Session is a shim holding the real fields read by the extracted functions (config, errors, out); Config is two opaque words", "Session::format is a harness-chosen outcome"])
 
 prop("C05", "A failing run never damages source files", "other",
-     ["U05", {"unit": "U16", "exclude": r"^FilesWithBackupEmitter"}, "U23", "U26", "U28"],
+     ["U05", {"unit": "U16", "exclude": r"^FilesWithBackupEmitter"}, "U23", "U26", "U28", {"unit": "U30", "only": r"^format:"}],
      [{"clause": "the exit status is 1 whenever a parsing or operational error was recorded; an Err from formatting a root is folded into the session as an operational error and later roots are still processed", "status": "proved", "by": "U05 (Kani, complete)"},
       {"clause": "a file is only ever replaced by its complete formatted text, and only if it differs (FilesEmitter: exactly one fs::write of the whole text, iff original != formatted)", "status": "bounded", "by": "U16 (native, complete w.r.t. the FS model)"},
       {"clause": "only --emit files reaches the file system (create_emitter table + token scan of the other emitters)", "status": "bounded", "by": "U16 + frame scan"},
       {"clause": "parse of the root and resolution of every reached module complete before the first file is formatted/emitted; a parse error, resolution error or failing parse session formats nothing; a parse error sets has_parsing_errors and is merged into the session; a required_version mismatch is an error before anything runs", "status": "bounded", "by": "U23 (real format_project / format_input_inner on event-recording shims, complete over the decision domain, <= 2 files)"},
       {"clause": "the top-level parse returns Ok only if the parser could be created, the parse succeeded and no error is left (errors may be forgiven only when they are resettable); parser panics are contained", "status": "bounded", "by": "U28 (real ParserBuilder::build / Parser::parse_crate on shims whose every entry point may succeed, fail or panic; complete over the outcome combinations)"},
       {"clause": "errors may be reset only if every diagnostic seen was a recoverable error in an ignored file: once a non-ignorable error has been emitted can_reset stays false, whatever came before or after (SilentOnIgnoredFilesEmitter, real rustc_errors types)", "status": "bounded", "by": "U26 (all sequences of <= 3/4 diagnostics over 6 kinds)"},
+      {"clause": "other roots named on the same command line are still formatted: a missing file, a directory, or a root whose configuration fails to load is an error of that root only", "status": "bounded", "by": "U30 part A"},
       {"clause": "the rustc parser and ModResolver report every fault of the input (syntax error in any reached module, both foo.rs and foo/mod.rs, ...); malformed configuration", "status": "not_decided", "by": "-"}],
      "Decided: the exit-code and error-folding clauses (proved on the extracted statements), the 'only complete text, only if different' clause of the files emitter, and the ordering 'parse and resolve everything, then format' of format_project. "
      "Not decided: that rustc's parser / ModResolver detect every fault.",
@@ -143,7 +147,7 @@ prop("C08", "Emitted text obeys the whitespace and newline discipline", "other",
      assumptions=["U08 precondition: no CR immediately before CRLF in the formatted buffer (the pipeline strips bare CRs earlier)", "FmtVisitor is a shim {buffer, line_number, config}"])
 
 prop("C14", "Configuration is resolved with the documented precedence", "other",
-     ["U19", "U25"],
+     ["U19", "U25", {"unit": "U30", "only": r"^format: each file is formatted under"}],
      [{"clause": "unset options take the defaults of the effective style edition: style_edition, else legacy version, else edition", "status": "proved", "by": "U19 (Kani, complete)"},
       {"clause": "an explicitly set width option is clamped to max_width, an unset one takes the heuristic; Max => equal to max_width; Off => the null table", "status": "proved", "by": "U19 (Kani, complete over all usize)"},
       {"clause": "Default heuristics never exceed max_width for 70 <= max_width <= 10000 (f32 rounding bit-precise)", "status": "proved", "by": "U19 (Kani, stated range)"},
@@ -192,11 +196,13 @@ prop("C09", "Released style editions are frozen", "other",
      assumptions=["the style edition influences formatting only through the scanned token forms (values copied into UseSegment.style_edition are compared with the same operators, which the scan also sees)"])
 
 prop("C13", "Exactly the reachable, non-excluded files are formatted, each once", "other",
-     [{"unit": "U23", "only": r"^format_project"}, "U17"],
+     [{"unit": "U23", "only": r"^format_project"}, "U17", "U31"],
      [{"clause": "of the (path, module) list produced by module resolution, exactly the non-excluded entries are formatted, each once, in order; stdin never filters; children are resolved only for file input without skip_children", "status": "bounded", "by": "U23 (real format_project on event-recording shims, <= 2 files)"},
       {"clause": "exclusion decision: skip attribute, skip_children, ignore, @generated (should_skip_module: proved equal to the statement's formula for file input; is_generated_file, IgnorePathSet bounded)", "status": "proved", "by": "U17 (Kani complete) + U17 native — KNOWN FINDING: stdin + @generated"},
-      {"clause": "reachability: which files `mod name;` declarations resolve to (name.rs / name/mod.rs, #[path], cfg_if!, nested inline modules), ambiguity and missing-module errors, each file reached twice is listed once", "status": "not_decided", "by": "- (ModResolver over rustc_ast / rustc_expand; the larger half of the property)"}],
-     "Only the consumer side of module resolution is within reach: given the resolver's list, format_project formats precisely the non-excluded entries once each. The reachability rules themselves live in ModResolver over rustc types and are not decided by this technique.",
+      {"clause": "reachability: the files the real ModResolver lists for a root are exactly those the language rules resolve (name.rs / name/mod.rs relative to the module directory, nested inline modules, #[path], cfg_attr(path), cfg_if!/cfg_match!, the documented fallback), each once; a missing or ambiguous module is an error, never a guess; decoys are never listed; a file with an inner skip attribute is not descended into; recursive = false lists only the root", "status": "bounded", "by": "U31 (the real resolver, real rustc parser and rustc_expand on real directory trees: every subset of the candidate files of 7 families, 3008 / 11520 trees) — KNOWN FINDINGS K-INLINE, K-ROOTSKIP (both pinned by existing tests), K-SPELLING"},
+      {"clause": "trees deeper than 4 levels, symlinks, absolute #[path], case-insensitive file systems", "status": "not_decided", "by": "-"}],
+     "Consumer side: given the resolver's list, the real format_project formats precisely the non-excluded entries once each (U23), with the exclusion table proved for file input (U17). "
+     "Producer side: the real ModResolver (whole files parse/session.rs, parse/parser.rs, modules/visitor.rs, every item of modules.rs, real rustc parser) is run on real directory trees against an oracle written from the language rules (U31) — bounded by the enumerated tree families.",
      statement_clauses={"U23": "Each such file is formatted once ..., except modules or files that are skipped, matched by `ignore`, marked @generated ..., or any child when skip_children is set or the input is standard input"})
 
 prop("C01", "Formatting preserves the meaning of the program", "other",
